@@ -650,7 +650,7 @@ def rule_r6(facts, col, bodies=None):
 
 def rule_r7(facts, col, bodies=None):
     """a failing block stops the others: on a block thread, every path from the Err of work() to the thread's return passes
-    CancellationToken::cancel() (directly, or in the closure handed to `inspect_err` on the work result) - the join loop waits
+    CancellationToken::cancel() (directly, or in the closure handed to `inspect_err` / `map_err` on the work result - itself or through a runner helper that always cancels) - the join loop waits
     for threads in turn, so a thread of an unrelated, endless part of the graph that is joined first is never told to stop
     unless the failing thread itself raises the flag"""
     from ..runners import thread_side_paths
@@ -678,13 +678,22 @@ def rule_r7(facts, col, bodies=None):
             # inspect_err(|e| { ..; cancel_token.cancel(); }) on the work result: runs exactly on Err, before the `?`
             via_inspect = False
             for bb, t in body.calls():
-                if (t["f"].get("q") or "").startswith("std::result::Result::") and t["f"].get("name") == "inspect_err" and len(t["args"]) == 2:
+                if (t["f"].get("q") or "").startswith("std::result::Result::") and t["f"].get("name") in ("inspect_err", "map_err") and len(t["args"]) == 2:
                     if ws._is_work_value(body.operand_expr(t["args"][0])):
                         for x in walk(body.operand_expr(t["args"][1])):
                             if x.k == "agg" and x.ak == "closure" and x.q:
                                 cb = facts.by_path.get(x.q)
                                 if cb is not None:
                                     cc = {b2 for b2, t2 in cb.calls_to(CANCEL)}
+                                    # `|e| abort_graph(&token, e)`: a helper of the runner that cancels on every path
+                                    for b2, t2 in cb.calls():
+                                        for q2 in Body.callee_qs(t2):
+                                            for hb in facts.by_q.get(q2, []):
+                                                if hb.kind == "closure" or hb.file not in ("src/mtgraph.rs", "src/graph.rs"):
+                                                    continue
+                                                hc = {b3 for b3, t3 in hb.calls_to(CANCEL)}
+                                                if hc and (0 in hc or not (hb.reachable(0, avoid=hc) & set(hb.return_blocks()))):
+                                                    cc.add(b2)
                                     rets = set(cb.return_blocks())
                                     if cc and (0 in cc or not (cb.reachable(0, avoid=cc) & rets)):
                                         via_inspect = True
@@ -741,6 +750,86 @@ def rule_r9(facts, col, rule_id="C07.R9"):
         col.ok(rule_id, "scanned", "src/mtgraph.rs", "%d runner bodies scanned for panicking divisions" % n)
 
 
+GROW_ASSIGN = ("mul_assign", "add_assign", "shl_assign")
+GROW_OPS = ("Mul", "Add", "Shl", "MulWithOverflow", "AddWithOverflow")
+GROW_CALLS = ("::mul", "::add", "::shl", "::saturating_mul", "::saturating_add", "::checked_mul", "::checked_add", "::mul_f32", "::mul_f64", "::pow")
+CLAMP_CALLS = ("::min", "::clamp")
+
+
+def rule_r10(facts, col, bodies=None, rule_id="C07.R10"):
+    """the runner's own sleeps are bounded: a worker only looks at the cancel flag between two sleeps / work() calls and
+    `thread::sleep` cannot be interrupted, so the longest sleep is the time a cancellation (or another block's failure) can go
+    unnoticed.  Decided on the shape: the duration handed to `thread::sleep` in a runner body is not a loop-carried variable
+    that grows (`d *= 2`, `d = d * 2`, `d += step`) without a clamp (`min` / `clamp`) on the same variable.  A constant, a
+    single-assignment value, or a grown-and-clamped variable is accepted; other shapes are not decided."""
+    bodies = runner_bodies(facts) if bodies is None else bodies
+    n = 0
+    for b in bodies:
+        idx = 0
+        for bb, t in b.calls_to(lambda q: q.endswith("thread::sleep")):
+            if not t["args"]:
+                continue
+            key = "%s:sleep#%d" % (b.q, idx)
+            idx += 1
+            n += 1
+            e = b.operand_expr(t["args"][0])
+            locs = set()
+            opaque = []
+
+            def collect(x, depth=0):
+                # the duration itself or arithmetic over it; a clamp ends the search, any other call (a helper that computes the
+                # duration from a counter, say) is opaque: what it does with a growing argument is not decided here
+                x = peel(x)
+                if x is None or depth > 12:
+                    return
+                if x.k in ("multi", "local") and getattr(x, "local", None) is not None:
+                    locs.add(x.local)
+                elif x.k == "bin":
+                    collect(x.a, depth + 1)
+                    collect(x.b, depth + 1)
+                elif x.k == "call":
+                    q = x.q or ""
+                    if any(q.endswith(g) for g in CLAMP_CALLS):
+                        return
+                    if any(q.endswith(g) for g in GROW_CALLS):
+                        for a in x.args or []:
+                            collect(a, depth + 1)
+                    elif not (q.startswith("std::time::Duration::from_") or q.startswith("core::time::Duration::from_")):
+                        opaque.append(q)
+            collect(e)
+            grow, clamp = [], []
+            for l in sorted(locs):
+                # in-place growth through a `&mut l` handed to an op-assign
+                for cbb, ct in b.calls():
+                    qs = Body.callee_qs(ct)
+                    if any(q.endswith(g) for q in qs for g in GROW_ASSIGN) and l in _mut_borrowed_locals(b, ct):
+                        grow.append((cbb, "%s(&mut %s, ..)" % (qs[0].split("::")[-1], b.var_name_of_local(l) or "_%d" % l)))
+                    if any(q.endswith(g) for q in qs for g in CLAMP_CALLS) and ct["dst"]["l"] == l and not ct["dst"]["p"]:
+                        clamp.append(cbb)
+                for dbb, si, kind, payload in b.defs().get(l, []):
+                    ex = b.rvalue_expr(payload) if kind == "rv" else b.call_expr(dbb, payload)
+                    top = peel(ex)
+                    if top is not None and top.k == "call" and any((top.q or "").endswith(g) for g in CLAMP_CALLS):
+                        clamp.append(dbb)
+                        continue
+                    selfref = any(x.k in ("multi", "local") and getattr(x, "local", None) == l for x in walk(ex))
+                    grows = any((x.k == "bin" and x.op in GROW_OPS) or
+                                (x.k == "call" and any((x.q or "").endswith(g) for g in GROW_CALLS)) for x in walk(ex))
+                    if selfref and grows:
+                        grow.append((dbb, show(ex)[:80]))
+            if grow and not clamp:
+                col.bad(rule_id, key, b.where(grow[0][0]),
+                        "the duration of this runner sleep is a loop-carried variable that grows (%s) and is never clamped: the worker "
+                        "cannot see the cancel flag (or another block's failure) for the length of its longest sleep, which has no bound"
+                        % grow[0][1], {"sleep": b.where(bb)})
+            else:
+                col.ok(rule_id, key, b.where(bb), "sleep duration %s" % (
+                    "grows under a clamp" if grow else
+                    ("computed by %s: not decided" % opaque[0].split("::")[-1]) if opaque and not locs else
+                    "does not grow from call to call: " + show(e)[:60]))
+    return n
+
+
 def run(ctx):
     facts = ctx.facts("default")
     rb = runner_bodies(facts)
@@ -761,6 +850,8 @@ def run(ctx):
     ctx.floor("C07.R9", 1, "runner bodies scanned (no integer / Duration division today)")
     rule_r5(facts, ctx)
     ctx.floor("C07.R5", 1, "CancellationToken::cancel stores true")
+    rule_r10(facts, ctx, rb)
+    ctx.floor("C07.R10", 1, "thread::sleep sites in runner bodies (MTGraph worker, Pending arm)")
     from .. import controls
     controls.expect(ctx, "C07.R1", rule_r1, "BadRunner", "expect() on a block error")
     controls.expect(ctx, "C07.R2", rule_r2, "BadRunner", "error never returned")
